@@ -273,6 +273,17 @@ func (kc *Cache[V]) evict() *Entry[V] {
 		}
 	}
 	if n < 0 {
+		// There are 8*len(locus)+1 buckets, so with max == 8*len(locus)*minPerBucket every
+		// bucket can be at its minimum while the cache is over capacity.
+		// Fall back to the farthest non-empty bucket so that max is still respected.
+		for i, b := range kc.buckets {
+			if b.len() > 0 {
+				n = i
+				break
+			}
+		}
+	}
+	if n < 0 {
 		return nil
 	}
 	b := kc.buckets[n]
